@@ -20,6 +20,14 @@ from .ops import OPS
 
 VERIF = os.path.dirname(os.path.dirname(os.path.abspath(__file__)))
 PROPERTY = "C13"
+
+
+def evidence_dir():
+    return os.environ.get("HTSIM_EVIDENCE_DIR") or os.path.join(VERIF, "evidence")
+
+
+def replay_dir():
+    return os.environ.get("HTSIM_REPLAY_DIR") or os.path.join(VERIF, "replays")
 BATCHES = ["K0", "K1", "K2", "K3", "K4"]
 BATCH_DOC = {
     "K0": "plain call sequences (cold/warm/order effects only)",
@@ -342,7 +350,18 @@ class Check:
             if sig(a) != sig(b):
                 res["r2_process_dependent"].append({"key": key, "req": s["req"], "a": a.get("out"), "b": b.get("out")})
             elif sig(a) != (s["out"], s["post"]):
-                res["r2_proxy_wrong"].append({"key": key, "op": s["req"]["op"], "how": "eval"})
+                # two other hash seeds agree with each other but not with the pristine fork (which runs under
+                # the driver's hash seed): a truly fresh interpreter under the DRIVER's hash seed decides whether
+                # the library is hash-seed dependent (violation) or the fork proxy is wrong (harness error)
+                try:
+                    own = fresh.collect(fresh.launch({"mode": "single", "req": s["req"]},
+                                                     os.environ.get("PYTHONHASHSEED", "0"), VERIF, "/", "C"))["out"]
+                except Exception as e:
+                    own = {"error": str(e)}
+                if sig(own) == (s["out"], s["post"]):
+                    res["r2_process_dependent"].append({"key": key, "req": s["req"], "a": a.get("out"), "b": s["out"]})
+                else:
+                    res["r2_proxy_wrong"].append({"key": key, "op": s["req"]["op"], "how": "eval"})
             else:
                 res["r2_agree"] += 1
         return res
@@ -374,6 +393,8 @@ class Check:
                     res["pool_rerun_equal"] += 1
                 else:
                     res["mismatches"].append({"where": "pool", "job": rr["job"]})
+        byk = {(r["job"]["batch"], r["job"]["i"]): r for r in base}
+        res["process_dependent"] = []
         for p in procs:
             try:
                 doc = fresh.collect(p)
@@ -387,14 +408,27 @@ class Check:
                 elif (rr["history_digest"], rr["log_digest"]) == want[k]:
                     res["fresh_interpreter_equal"] += 1
                 else:
-                    res["mismatches"].append({"where": "fresh-interpreter", "job": rr["job"]})
+                    # same seed, other process, other hash seed: where do the two logs part?  Same step
+                    # descriptor but another outcome => the LIBRARY's result depends on the process (I3);
+                    # a differing descriptor first => the harness is not deterministic.
+                    pa, pb = project(byk[k]["events"] or []), project(rr.get("events") or [])
+                    idx = next((n for n, (x, y) in enumerate(zip(pa, pb)) if x != y), min(len(pa), len(pb)))
+                    x = pa[idx] if idx < len(pa) else None
+                    y = pb[idx] if idx < len(pb) else None
+                    same_desc = x is not None and y is not None and all(x.get(q) == y.get(q) for q in ("id", "kind", "op", "pre"))
+                    d = {"where": "fresh-interpreter", "job": rr["job"], "at": idx, "a": x, "b": y,
+                         "batch": k[0], "i": k[1], "descriptor_same": same_desc}
+                    if same_desc and x.get("kind") == "call":
+                        res["process_dependent"].append(d)
+                    else:
+                        res["mismatches"].append(d)
         return res
 
     # ---------------------------------------------------------------- violations
     def handle_violations(self, extra):
         """Minimise one history per violation class, write replay files, print VIOLATION / KNOWN-FINDING."""
         known = load_known()
-        os.makedirs(os.path.join(VERIF, "replays"), exist_ok=True)
+        os.makedirs(replay_dir(), exist_ok=True)
         classes = {}
         for rep in self.violating:
             for v in rep["violations"]:
@@ -414,9 +448,11 @@ class Check:
                 continue
             path = write_replay(rep, v, self.seed, self.tier, state, len(items), minimise_it=True, log=self.log)
             lines.append(f"VIOLATION property={PROPERTY} replay={path}")
-        for x in extra:
+        for n, x in enumerate(extra):
             new += 1
-            rep = {"steps": x.get("steps", []), "job": {"batch": "R", "i": 0, "seed": 0}, "config": None}
+            rep = {"steps": x.get("steps", []), "job": {"batch": "R", "i": n, "seed": 0}, "config": None}
+            x["violation"]["i3_mode"] = "single" if len(rep["steps"]) == 1 and all(
+                "lit" in a for a in rep["steps"][0].get("args", [])) else "history"
             path = write_replay(rep, x["violation"], self.seed, self.tier, state, 1, minimise_it=False, log=self.log)
             lines.append(f"VIOLATION property={PROPERTY} replay={path}")
         return lines, new, kn
@@ -458,7 +494,7 @@ def write_replay(rep, v, seed, tier, state, count, minimise_it, log):
         if vv:
             steps, v = cur, vv[0]
     name = f"{PROPERTY}-{seed}-{rep['job'].get('batch')}{rep['job'].get('i')}-{cls[0]}-{cls[1].replace('.', '_')}.json"
-    path = os.path.join(VERIF, "replays", name)
+    path = os.path.join(replay_dir(), name)
     doc = {"format": 1, "property": PROPERTY, "verif_seed": seed, "tier": tier, "run_seed": rep["job"].get("seed"),
            "batch": rep["job"].get("batch"), "run_index": rep["job"].get("i"), "config": rep.get("config"),
            "violation_class": list(cls), "violation": v, "occurrences_in_this_invocation": count,
@@ -514,11 +550,16 @@ def cmd_check(tier, seed, nworkers, scale):
         chk.harness_errors.append({"job": d, "error": "pristine-fork proxy disagrees with fresh interpreters"})
     for d in det["mismatches"]:
         chk.harness_errors.append({"job": d, "error": "determinism self-test: same seed, different event log"})
+    for d in det.get("process_dependent", []):
+        extra.append({"violation": {"invariant": "I3", "step": (d["a"] or {}).get("id", 0), "op": (d["a"] or {}).get("op", "?"),
+                                    "text": "same seed, same history prefix, different outcome in a fresh interpreter with "
+                                            "another hash seed", "detail": d},
+                      "steps": chk.kept[(d["batch"], d["i"])]["steps"]})
     lines, new, kn = chk.handle_violations(extra)
     wall = time.time() - t0
     ev = evidence(chk, ref, det, state, wall, t_batches, new, kn)
-    os.makedirs(os.path.join(VERIF, "evidence"), exist_ok=True)
-    with open(os.path.join(VERIF, "evidence", f"{PROPERTY}.json"), "w") as f:
+    os.makedirs(evidence_dir(), exist_ok=True)
+    with open(os.path.join(evidence_dir(), f"{PROPERTY}.json"), "w") as f:
         json.dump(ev, f, indent=1)
     a = chk.agg
     chk.log(f"runs={a['runs']} judged_calls={a['stats'].get('calls_judged', 0)} faulted_calls={a['stats'].get('calls_faulted', 0)} "
@@ -635,12 +676,25 @@ def cmd_replay(path):
     from . import worker
     cls = tuple(doc["violation_class"])
     if cls[0] == "I3":
-        # process-dependence: evaluate the single call in two fresh interpreters with different hash seeds
+        # process-dependence: the same call / the same history in fresh interpreters with different hash seeds
         from . import fresh
-        st = doc["steps"][0]
-        req = {"op": st["op"], "args": [a["lit"] for a in st["args"]], "kw": [[k, a["lit"]] for k, a in st["kw"]], "same": {}}
-        outs = [fresh.collect(fresh.launch({"mode": "single", "req": req}, hs, VERIF))["out"] for hs in (101, 2024)]
-        bad = outs[0].get("out") != outs[1].get("out")
+        seeds = (0, 101, 2024, 31337, 7)
+        if doc["violation"].get("i3_mode") == "single":
+            st = doc["steps"][0]
+            req = {"op": st["op"], "args": [a["lit"] for a in st["args"]], "kw": [[k, a["lit"]] for k, a in st["kw"]], "same": {}}
+            ps = [fresh.launch({"mode": "single", "req": req}, hs, VERIF) for hs in seeds]
+            outs = [fresh.collect(p)["out"] for p in ps]
+            bad = any(o.get("out") != outs[0].get("out") for o in outs)
+        else:
+            job = {"mode": "replay", "steps": doc["steps"], "judge": False, "want_events": True}
+            ps = [fresh.launch({"mode": "replay", "jobs": [job]}, hs, VERIF) for hs in seeds]
+            logs = [project(fresh.collect(p)["out"][0].get("events") or []) for p in ps]
+            bad = False
+            for lg in logs[1:]:
+                idx = next((n for n, (x, y) in enumerate(zip(logs[0], lg)) if x != y), None)
+                if idx is not None and all(logs[0][idx].get(q) == lg[idx].get(q) for q in ("id", "kind", "op", "pre")):
+                    bad = True
+                    print("   step", logs[0][idx].get("id"), logs[0][idx].get("op"), "outcome differs between processes")
     else:
         rep = worker.run_job({"mode": "replay", "steps": doc["steps"], "judge": True, "want_events": True})
         if "harness_error" in rep:
